@@ -580,6 +580,17 @@ func runMeta(c MetaCase) pbt.Verdict {
 	if err != nil {
 		return pbt.Fail("LastAccessTime.Serialize(%d s): %v", c.Sec, err)
 	}
+	// The serialized bytes belong to the caller (the store writes them to the sidecar later):
+	// serializing other metadata in between must not change them.
+	heldLAT := append([]byte(nil), ser...)
+	for _, o := range []metadata.Metadata{metadata.NewLastAccessTime(time.Unix(c.Sec+12345, 0)), metadata.NewPersist(!c.Persist), metadata.NewLastAccessTime(time.Unix(1, 0))} {
+		if _, err := o.Serialize(); err != nil {
+			return pbt.Fail("Serialize of other metadata failed: %v", err)
+		}
+	}
+	if !bytes.Equal(ser, heldLAT) {
+		return pbt.Fail("LastAccessTime: the bytes Serialize returned for %d s changed when other metadata was serialized afterwards: were %x, are %x", c.Sec, heldLAT, ser)
+	}
 	md := fresh(lat.GetSuffix())
 	back, ok := md.(*metadata.LastAccessTime)
 	if !ok {
@@ -636,6 +647,13 @@ func runMeta(c MetaCase) pbt.Verdict {
 		ser, err := p.Serialize()
 		if err != nil {
 			return pbt.Fail("Persist.Serialize: %v", err)
+		}
+		heldP := append([]byte(nil), ser...)
+		for _, o := range []metadata.Metadata{metadata.NewPersist(!c.Persist), metadata.NewLastAccessTime(in), metadata.NewPersist(!c.Persist)} {
+			o.Serialize()
+		}
+		if !bytes.Equal(ser, heldP) {
+			return pbt.Fail("Persist: the bytes Serialize returned for %v changed when other metadata was serialized afterwards: were %q, are %q", c.Persist, heldP, ser)
 		}
 		md := fresh(p.GetSuffix())
 		back, ok := md.(*metadata.Persist)
